@@ -646,9 +646,21 @@ fn capture_one<'tcx>(tcx: TyCtxt<'tcx>, def: LocalDefId) {
                 visit(&ab.0);
                 visit(&ab.1);
               }
-              Rvalue::Aggregate(_, ops) => {
+              Rvalue::Aggregate(kind, ops) => {
                 for o in ops.iter() {
                   visit(o);
+                }
+                // a field-less enum variant / unit struct used as a constant (`x != Phase::Lingering`)
+                if ops.is_empty() {
+                  if let AggregateKind::Adt(did, vidx, _, _, _) = &**kind {
+                    let adt = tcx.adt_def(*did);
+                    let v = adt.variant(*vidx);
+                    if adt.is_enum() {
+                      items.push(esc(&format!("{}::{}", path_str(tcx, *did), v.name)));
+                    } else {
+                      items.push(esc(&path_str(tcx, *did)));
+                    }
+                  }
                 }
               }
               _ => {}
